@@ -126,3 +126,14 @@ def describe(tier):
             "small-scope hypothesis over parameter kinds and count",
         ],
     )
+
+
+def standalone(case):
+    if "cfg" not in case:
+        return None
+    cfg = case["cfg"]
+    return (
+        "import sys; sys.path.insert(0, '/verif')  # only for mc.formats.hop = emit -> to_code -> ast.parse -> parse\n"
+        "from mc import formats as F\nir = F.ir_from_json({ir!r})\n"
+        "back, text = F.hop({fmt!r}, ir, {style!r}, {edd!r}, **{kw!r})\nprint(text)\nprint(dict(back['params']), back.get('returns'))\n"
+    ).format(ir=case["ir"], fmt=cfg["fmt"], style=cfg["style"], edd=cfg["emit_default_doc"], kw=cfg["kw"])
